@@ -162,6 +162,6 @@ static void densityCase(Rng &rng, CaseResult &r) {
 
 int main(int argc, char **argv) {
   std::vector<vf::Part> parts;
-  parts.push_back({"c16.history", [](uint64_t, Rng &rng, CaseResult &r) { densityCase(rng, r); }, 300});
+  parts.push_back({"c16.history", [](uint64_t, Rng &rng, CaseResult &r) { densityCase(rng, r); }, 60});
   return vf::runMain(argc, argv, parts);
 }
